@@ -27,6 +27,13 @@ type judgeFn func(c *ProgCase, o Obs) (inScope bool, what string)
 // and reports every failing observation through judge.
 func runFamily(r *Reporter, prop string, runs []famRun, configs func(c *ProgCase) []Config, nontrivial func(c *ProgCase) bool, judge judgeFn) {
 	verbose := os.Getenv("VERIF_VERBOSE") != ""
+	if sel := os.Getenv("VERIF_RUNS"); sel != "" { // debugging aid: restrict to one TLC run of the family
+		var idx int
+		fmt.Sscan(sel, &idx)
+		if idx < len(runs) {
+			runs = runs[idx : idx+1]
+		}
+	}
 	for _, fr := range runs {
 		o := TLCOpts{Module: fr.Module, Cfg: famCfg(fr.Consts), Simulate: fr.Simulate, Depth: fr.Depth, Seed: seed*1000 + fr.SeedOff}
 		st := streamCases(r, o, 16, func(c *ProgCase) {
@@ -73,8 +80,11 @@ func generalRuns() []famRun {
 		}
 	}
 	return []famRun{
-		{Module: "General", Consts: fmt.Sprintf(" MaxLen = 3\n MinLen = 1\n Fuel = 64\n ImageSet = %s\n Alphabet = \"full\"\n", imgs)},
-		{Module: "General", Consts: " MaxLen = 24\n MinLen = 6\n Fuel = 400\n ImageSet = \"three\"\n Alphabet = \"loop\"\n", Simulate: "num=300", Depth: 28, SeedOff: 1},
+		{Module: "General", Consts: " MaxLen = 2\n MinLen = 1\n Fuel = 64\n ImageSet = \"two\"\n Alphabet = \"full\"\n"},
+		{Module: "General", Consts: " MaxLen = 3\n MinLen = 3\n Fuel = 64\n ImageSet = \"one\"\n Alphabet = \"alu\"\n"},
+		{Module: "General", Consts: " MaxLen = 3\n MinLen = 3\n Fuel = 64\n ImageSet = \"one\"\n Alphabet = \"mem\"\n"},
+		{Module: "General", Consts: " MaxLen = 3\n MinLen = 3\n Fuel = 64\n ImageSet = \"one\"\n Alphabet = \"ctl\"\n"},
+		{Module: "General", Consts: " MaxLen = 24\n MinLen = 6\n Fuel = 400\n ImageSet = \"three\"\n Alphabet = \"loop\"\n", Simulate: "num=150", Depth: 28, SeedOff: 1},
 	}
 }
 
